@@ -52,7 +52,27 @@ class GlencoeParseAstConstraint:
     theorems = ('theorem_glencoe_ctc_roundtrip',)
     kinds = {'ctc_info': 'Element', 'features_info': 'PyObject'}
     raises = ('FlamaException',)
-    native = False
+
+    @staticmethod
+    def models(scope, seed):
+        from contracts.c18 import ctc_models
+        return ctc_models(scope, seed)
+
+    @staticmethod
+    def gen_self(model):
+        return [GlencoeReader('unused.gfm.json')]
+
+    @staticmethod
+    def gen_ctc_info(model):
+        return [glencoe_get_ctc_info(c.ast.root) for c in model.ctcs if wf_node(c.ast.root) and logical(c.ast.root)]
+
+    @staticmethod
+    def gen_features_info(model):
+        names = set()
+        for c in model.ctcs:
+            names |= set(names_of(c.ast.root))
+        # ids different from names: the reader must go through the mapping
+        return [ident_map(), {str(n): {'name': 'N_' + str(n)} for n in names}]
 
     def pre(self, ctc_info, features_info):
         return g_wf(ctc_info)
